@@ -97,6 +97,18 @@ type zident struct {
 	DCs  []string `json:"datacenters,omitempty"`
 }
 
+type ztmpl struct {
+	Template string   `json:"template"`
+	Name     string   `json:"name,omitempty"`
+	DCs      []string `json:"datacenters,omitempty"`
+}
+
+func (t ztmpl) key() string { return t.Template + ":" + t.Name }
+
+func (t ztmpl) spec() *zpol {
+	return &zpol{Label: "tmpl:" + t.key(), Tmpl: t.Template, TmplName: t.Name}
+}
+
 type zscPolicy struct {
 	ID  string   `json:"id"`
 	P   *zpol    `json:"content"`
@@ -108,6 +120,7 @@ type zscRole struct {
 	Pols    []int    `json:"policies,omitempty"`
 	SvcIDs  []zident `json:"service_identities,omitempty"`
 	NodeIDs []zident `json:"node_identities,omitempty"`
+	Tmpls   []ztmpl  `json:"templated_policies,omitempty"`
 }
 
 type zscToken struct {
@@ -116,6 +129,7 @@ type zscToken struct {
 	Roles   []int    `json:"roles,omitempty"`
 	SvcIDs  []zident `json:"service_identities,omitempty"`
 	NodeIDs []zident `json:"node_identities,omitempty"`
+	Tmpls   []ztmpl  `json:"templated_policies,omitempty"`
 }
 
 type zscStep struct {
@@ -131,6 +145,10 @@ type zscenario struct {
 	Roles    []zscRole   `json:"roles,omitempty"`
 	Tokens   []zscToken  `json:"tokens"`
 	Steps    []zscStep   `json:"steps"`
+	// duplicate-synthetic-policy family (zvDupScenario): token holding the same synthetic policy through
+	// two kinds, and its siblings (the same token minus that pair / minus everything)
+	Dup  int   `json:"token_with_duplicate_synthetic_policy"`
+	Sibs []int `json:"sibling_tokens,omitempty"`
 }
 
 func zvInDC1(dcs []string) bool {
@@ -148,7 +166,7 @@ func zvInDC1(dcs []string) bool {
 var zvDCChoices = [][]string{{"dc1"}, {"dc2"}, {"dc2", "dc1"}}
 
 func zvRandScenario(r *core.Rand, pools map[string][]*zpol, allPool []*zpol, updates bool) *zscenario {
-	sc := &zscenario{Default: []string{"deny", "allow"}[r.Intn(2)], Caches: "server"}
+	sc := &zscenario{Default: []string{"deny", "allow"}[r.Intn(2)], Caches: "server", Dup: -1}
 	if r.Chance(40) {
 		sc.Caches = "no-authorizer-cache"
 	}
@@ -164,7 +182,7 @@ func zvRandScenario(r *core.Rand, pools map[string][]*zpol, allPool []*zpol, upd
 			default:
 				p = zvRandPolicy(r, "r")
 			}
-			if p.SvcID == "" && p.NodeID == "" {
+			if !p.synthetic() {
 				return p
 			}
 		}
@@ -180,6 +198,17 @@ func zvRandScenario(r *core.Rand, pools map[string][]*zpol, allPool []*zpol, upd
 			id.DCs = zvDCChoices[r.Intn(len(zvDCChoices))]
 		}
 		return id
+	}
+	tmpl := func() ztmpl {
+		t := ztmpl{Template: []string{"builtin/service", "builtin/service", "builtin/node", "builtin/dns", "builtin/nomad-server", "builtin/nomad-client", "builtin/api-gateway"}[r.Intn(7)]}
+		switch t.Template {
+		case "builtin/service", "builtin/node", "builtin/api-gateway":
+			t.Name = []string{"web", "web", "db"}[r.Intn(3)]
+		}
+		if r.Chance(15) {
+			t.DCs = zvDCChoices[r.Intn(len(zvDCChoices))]
+		}
+		return t
 	}
 	np := 3 + r.Intn(3)
 	for i := 0; i < np; i++ {
@@ -210,6 +239,9 @@ func zvRandScenario(r *core.Rand, pools map[string][]*zpol, allPool []*zpol, upd
 		if r.Chance(20) {
 			ro.NodeIDs = append(ro.NodeIDs, ident(true))
 		}
+		if r.Chance(20) {
+			ro.Tmpls = append(ro.Tmpls, tmpl())
+		}
 		sc.Roles = append(sc.Roles, ro)
 	}
 	nt := 3 + r.Intn(3)
@@ -229,6 +261,12 @@ func zvRandScenario(r *core.Rand, pools map[string][]*zpol, allPool []*zpol, upd
 		if r.Chance(15) {
 			tk.NodeIDs = append(tk.NodeIDs, ident(true))
 		}
+		if r.Chance(20) {
+			tk.Tmpls = append(tk.Tmpls, tmpl())
+			if r.Chance(25) {
+				tk.Tmpls = append(tk.Tmpls, tmpl())
+			}
+		}
 		sc.Tokens = append(sc.Tokens, tk)
 	}
 	ns := 4 + r.Intn(5)
@@ -242,12 +280,171 @@ func zvRandScenario(r *core.Rand, pools map[string][]*zpol, allPool []*zpol, upd
 	return sc
 }
 
+// zvDupScenario: a token (with its roles) holds the SAME synthetic policy through two kinds — service
+// identity X + templated builtin/service{X}, or node identity X/dc1 + templated builtin/node{X} — placed
+// on the token and/or on roles, with or without ordinary policies; its siblings hold exactly the rest
+// (the same ordinary policies without the pair; nothing at all; one half of the pair). The siblings are
+// resolved before and after it through the one resolver.
+func zvDupScenario(r *core.Rand, pools map[string][]*zpol, allPool []*zpol) *zscenario {
+	sc := &zscenario{Default: []string{"deny", "allow"}[r.Intn(2)], Caches: "server"}
+	if r.Chance(40) {
+		sc.Caches = "no-authorizer-cache"
+	}
+	focus := pools[[]string{"service", "node", "service", "node", "key", "scalar"}[r.Intn(6)]]
+	np := 2 + r.Intn(3)
+	for i := 0; i < np; i++ {
+		var p *zpol
+		for p == nil || p.synthetic() {
+			if r.Chance(70) {
+				p = focus[r.Intn(len(focus))]
+			} else {
+				p = allPool[r.Intn(len(allPool))]
+			}
+		}
+		sc.Policies = append(sc.Policies, zscPolicy{ID: zvUUID("pol", fmt.Sprint(r.U64())), P: p})
+	}
+	var ord []int // ordinary policies of the family (possibly none)
+	seen := map[int]bool{}
+	for j := 0; j < r.Intn(3); j++ {
+		if k := r.Intn(np); !seen[k] {
+			seen[k] = true
+			ord = append(ord, k)
+		}
+	}
+	name := []string{"web", "web", "db"}[r.Intn(3)]
+	node := r.Chance(40)
+	id := zident{Name: name}
+	tp := ztmpl{Template: "builtin/service", Name: name}
+	if node {
+		id.DCs = []string{"dc1"}
+		tp.Template = "builtin/node"
+	}
+	withID := func(svc, nd *[]zident) {
+		if node {
+			*nd = append(*nd, id)
+		} else {
+			*svc = append(*svc, id)
+		}
+	}
+	newRole := func() int {
+		sc.Roles = append(sc.Roles, zscRole{ID: zvUUID("role", fmt.Sprint(r.U64()))})
+		return len(sc.Roles) - 1
+	}
+	dup := zscToken{Pols: append([]int(nil), ord...)}
+	switch r.Intn(5) {
+	case 0: // both on the token
+		withID(&dup.SvcIDs, &dup.NodeIDs)
+		dup.Tmpls = append(dup.Tmpls, tp)
+	case 1: // identity on the token, templated policy on a role
+		withID(&dup.SvcIDs, &dup.NodeIDs)
+		ri := newRole()
+		sc.Roles[ri].Tmpls = append(sc.Roles[ri].Tmpls, tp)
+		dup.Roles = append(dup.Roles, ri)
+	case 2: // templated policy on the token, identity on a role
+		dup.Tmpls = append(dup.Tmpls, tp)
+		ri := newRole()
+		withID(&sc.Roles[ri].SvcIDs, &sc.Roles[ri].NodeIDs)
+		dup.Roles = append(dup.Roles, ri)
+	case 3: // on two roles
+		a, b := newRole(), newRole()
+		withID(&sc.Roles[a].SvcIDs, &sc.Roles[a].NodeIDs)
+		sc.Roles[b].Tmpls = append(sc.Roles[b].Tmpls, tp)
+		dup.Roles = append(dup.Roles, a, b)
+	default: // both on one role
+		a := newRole()
+		withID(&sc.Roles[a].SvcIDs, &sc.Roles[a].NodeIDs)
+		sc.Roles[a].Tmpls = append(sc.Roles[a].Tmpls, tp)
+		dup.Roles = append(dup.Roles, a)
+	}
+	rest := zscToken{Pols: append([]int(nil), ord...)} // the same token minus the pair
+	half1 := zscToken{Pols: append([]int(nil), ord...)}
+	withID(&half1.SvcIDs, &half1.NodeIDs)
+	half2 := zscToken{Pols: append([]int(nil), ord...), Tmpls: []ztmpl{tp}}
+	toks := []zscToken{dup, rest}
+	if len(ord) > 0 {
+		toks = append(toks, zscToken{}) // no policies at all
+	}
+	if r.Chance(50) {
+		toks = append(toks, half1)
+	}
+	if r.Chance(50) {
+		toks = append(toks, half2)
+	}
+	if r.Chance(30) { // an unrelated token sharing the ordinary policies
+		o := zscToken{}
+		for j := 0; j < 1+r.Intn(2); j++ {
+			o.Pols = append(o.Pols, r.Intn(np))
+		}
+		toks = append(toks, o)
+	}
+	for i := range toks {
+		toks[i].Secret = zvUUID("secret", fmt.Sprint(r.U64()))
+	}
+	sc.Tokens = toks
+	sc.Dup = 0
+	for i := 1; i < len(toks); i++ {
+		sc.Sibs = append(sc.Sibs, i)
+	}
+	// both resolution orders: siblings after the token, or before it (and again after)
+	var order []int
+	if r.Bool() {
+		order = append(order, 0)
+		order = append(order, sc.Sibs...)
+	} else {
+		p := r.Perm(len(sc.Sibs))
+		for _, j := range p {
+			order = append(order, sc.Sibs[j])
+		}
+		order = append(order, 0)
+	}
+	order = append(order, 1, 0)
+	for _, t := range order {
+		sc.Steps = append(sc.Steps, zscStep{Resolve: t})
+	}
+	return sc
+}
+
+// dupCounts: coverage of the duplicate-synthetic-policy family in a scenario's step list
+func (sc *zscenario) dupCounts(m *zmon) {
+	if sc.Dup < 0 {
+		return
+	}
+	m.count("purity:tokens-with-duplicate-synthetic-policy-across-kinds", 1)
+	m.count("resolver:tokens-with-duplicate-synthetic-policy-across-kinds", 1)
+	seenDup := false
+	before, after := false, false
+	for _, st := range sc.Steps {
+		if st.Resolve == sc.Dup {
+			seenDup = true
+			continue
+		}
+		for _, s := range sc.Sibs {
+			if st.Resolve == s {
+				if seenDup {
+					after = true
+				} else {
+					before = true
+				}
+			}
+		}
+	}
+	if before {
+		m.count("purity:sibling-resolved-before", 1)
+	}
+	if after {
+		m.count("purity:sibling-resolved-after", 1)
+	}
+}
+
 // effective: the policies (as reference zpols) a token holds in dc1 according to the documentation:
 // linked policies of the token and of its roles that are valid in dc1, plus one synthesised policy per
 // service / node identity (token + roles) that is valid in dc1. mergedScopes=true reproduces a
 // different reading (all identities with one service name share the union of their datacenter LISTS,
-// an unscoped one contributing nothing) and is only used to label a disagreement.
-func (sc *zscenario) effective(cur []*zpol, t int, mergedScopes bool) []*zpol {
+// an unscoped one contributing nothing) and is only used to label a disagreement. Templated policies
+// (token + roles): each one valid in dc1 contributes its rendered rules; alt "tmpl-mixed-dropped" is the
+// reading in which a template+variables group with instances of different datacenter validity is lost.
+func (sc *zscenario) effective(cur []*zpol, t int, alt string) []*zpol {
+	mergedScopes := alt == "svc-merged"
 	tk := sc.Tokens[t]
 	var out []*zpol
 	seen := map[int]bool{}
@@ -259,6 +456,7 @@ func (sc *zscenario) effective(cur []*zpol, t int, mergedScopes bool) []*zpol {
 	}
 	svc := append([]zident(nil), tk.SvcIDs...)
 	node := append([]zident(nil), tk.NodeIDs...)
+	tmpls := append([]ztmpl(nil), tk.Tmpls...)
 	for _, i := range tk.Pols {
 		addPol(i)
 	}
@@ -269,6 +467,7 @@ func (sc *zscenario) effective(cur []*zpol, t int, mergedScopes bool) []*zpol {
 		}
 		svc = append(svc, ro.SvcIDs...)
 		node = append(node, ro.NodeIDs...)
+		tmpls = append(tmpls, ro.Tmpls...)
 	}
 	names := map[string]bool{}
 	if mergedScopes {
@@ -301,6 +500,23 @@ func (sc *zscenario) effective(cur []*zpol, t int, mergedScopes bool) []*zpol {
 			out = append(out, &zpol{Label: "nodeid:" + id.Name, NodeID: id.Name})
 		}
 	}
+	valid, invalid := map[string]bool{}, map[string]bool{}
+	for _, tp := range tmpls {
+		if zvInDC1(tp.DCs) {
+			valid[tp.key()] = true
+		} else {
+			invalid[tp.key()] = true
+		}
+	}
+	tn := map[string]bool{}
+	for _, tp := range tmpls {
+		k := tp.key()
+		if !valid[k] || tn[k] || (alt == "tmpl-mixed-dropped" && invalid[k]) {
+			continue
+		}
+		tn[k] = true
+		out = append(out, tp.spec())
+	}
 	return out
 }
 
@@ -313,7 +529,7 @@ func (sc *zscenario) sharing() bool {
 		for i := range cur {
 			cur[i] = &zpol{Label: fmt.Sprint("p", i)}
 		}
-		for _, p := range sc.effective(cur, t, false) {
+		for _, p := range sc.effective(cur, t, "") {
 			s[p.Label] = true
 		}
 		sets[t] = s
@@ -357,6 +573,22 @@ func zvStructIdents(svc, node []zident) (structs.ACLServiceIdentities, structs.A
 	return s, n
 }
 
+func zvStructTmpls(ts []ztmpl) structs.ACLTemplatedPolicies {
+	var out structs.ACLTemplatedPolicies
+	for _, t := range ts {
+		base, ok := structs.GetACLTemplatedPolicyBase(t.Template)
+		if !ok {
+			panic("unknown template " + t.Template)
+		}
+		tp := &structs.ACLTemplatedPolicy{TemplateID: base.TemplateID, TemplateName: t.Template, Datacenters: append([]string(nil), t.DCs...)}
+		if t.Name != "" {
+			tp.TemplateVariables = &structs.ACLTemplatedPolicyVariables{Name: t.Name}
+		}
+		out = append(out, tp)
+	}
+	return out
+}
+
 func (w *zworld) putPolicy(i int, p *zpol) error {
 	w.idx++
 	sp := w.sc.Policies[i]
@@ -382,6 +614,7 @@ func zvBuildWorld(sc *zscenario) (*zworld, error) {
 			r.Policies = append(r.Policies, structs.ACLRolePolicyLink{ID: sc.Policies[pi].ID})
 		}
 		r.ServiceIdentities, r.NodeIdentities = zvStructIdents(ro.SvcIDs, ro.NodeIDs)
+		r.TemplatedPolicies = zvStructTmpls(ro.Tmpls)
 		r.SetHash(true)
 		if err := w.store.ACLRoleSet(w.idx, r); err != nil {
 			return nil, err
@@ -397,6 +630,7 @@ func zvBuildWorld(sc *zscenario) (*zworld, error) {
 			t.Roles = append(t.Roles, structs.ACLTokenRoleLink{ID: sc.Roles[ri].ID})
 		}
 		t.ServiceIdentities, t.NodeIdentities = zvStructIdents(tk.SvcIDs, tk.NodeIDs)
+		t.TemplatedPolicies = zvStructTmpls(tk.Tmpls)
 		t.SetHash(true)
 		if err := w.store.ACLTokenSet(w.idx, t); err != nil {
 			return nil, err
@@ -420,8 +654,8 @@ func (w *zworld) resolveVector(res *consul.ACLResolver, t int) ([]byte, error) {
 	return zvEvalChained(r.Authorizer, make([]byte, 0, len(zvQueries))), nil
 }
 
-func (w *zworld) want(m *zmon, t int, merged bool) []byte {
-	v := m.refVector(w.sc.effective(w.cur, t, merged))
+func (w *zworld) want(m *zmon, t int, alt string) []byte {
+	v := m.refVector(w.sc.effective(w.cur, t, alt))
 	n := len(zvQueries)
 	if w.sc.Default == "allow" {
 		return v[n:]
@@ -445,7 +679,7 @@ type zscWitness struct {
 func (w *zworld) judge(m *zmon, part string, step, t int, want, got []byte, hist []zhist) {
 	i := zvPickDiff(want, got)
 	q := zvQueries[i]
-	eff := w.sc.effective(w.cur, t, false)
+	eff := w.sc.effective(w.cur, t, "")
 	wit := zscWitness{Part: part, Scenario: w.sc, Step: step, Token: t, Own: zvLabels(eff), Query: q, Want: string(want[i]), Got: string(got[i])}
 	cfg := zvServerCaches
 	fresh, err := w.resolveVector(zvNewResolver(w.backend, w.sc.Default, cfg), t)
@@ -455,7 +689,12 @@ func (w *zworld) judge(m *zmon, part string, step, t int, want, got []byte, hist
 	desc := fmt.Sprintf("ResolveToken(token %d, effective policies %v, default %s): %s(%q) is %c, its own policies/roles/identities give %c", t, zvLabels(eff), w.sc.Default, q.Fn, q.Arg, got[i], want[i])
 	if err == nil && zvDiff(want, fresh) >= 0 {
 		// wrong without any earlier traffic: semantics of the resolution itself
-		if alt := w.want(m, t, true); zvDiff(alt, fresh) < 0 {
+		if alt := w.want(m, t, "tmpl-mixed-dropped"); zvDiff(alt, fresh) < 0 {
+			m.run.Violation("C08:templated-policy-dedupe:datacenter-scope-ignored",
+				desc+" — the token (with its roles) holds the same templated policy twice, once valid in this datacenter and once scoped elsewhere; the de-duplication keeps only one of them without regard to the datacenters and the valid one is lost", wit)
+			return
+		}
+		if alt := w.want(m, t, "svc-merged"); zvDiff(alt, fresh) < 0 {
 			m.run.Violation("C08:service-identity-dedupe:unscoped-identity-narrowed-by-scoped-duplicate",
 				desc+" — a service identity valid in all datacenters is merged with a same-named identity scoped to other datacenters and the merged one is no longer valid here", wit)
 			return
@@ -497,10 +736,12 @@ func (w *zworld) pairsOf(t int, cur []*zpol) []zpair {
 	idxs := append([]int(nil), tk.Pols...)
 	svc := append([]zident(nil), tk.SvcIDs...)
 	node := append([]zident(nil), tk.NodeIDs...)
+	tmpls := append([]ztmpl(nil), tk.Tmpls...)
 	for _, ri := range tk.Roles {
 		idxs = append(idxs, w.sc.Roles[ri].Pols...)
 		svc = append(svc, w.sc.Roles[ri].SvcIDs...)
 		node = append(node, w.sc.Roles[ri].NodeIDs...)
+		tmpls = append(tmpls, w.sc.Roles[ri].Tmpls...)
 	}
 	sort.Slice(idxs, func(a, b int) bool { return w.sc.Policies[idxs[a]].ID < w.sc.Policies[idxs[b]].ID })
 	var out []zpair
@@ -529,6 +770,13 @@ func (w *zworld) pairsOf(t int, cur []*zpol) []zpair {
 		if zvInDC1(id.DCs) && !names["n"+id.Name] {
 			names["n"+id.Name] = true
 			sp := &zpol{Label: "nodeid:" + id.Name, NodeID: id.Name}
+			out = append(out, zpair{zvMkPolicy(sp, "", 0), sp})
+		}
+	}
+	for _, tp := range tmpls {
+		if zvInDC1(tp.DCs) && !names["t"+tp.key()] {
+			names["t"+tp.key()] = true
+			sp := tp.spec()
 			out = append(out, zpair{zvMkPolicy(sp, "", 0), sp})
 		}
 	}
@@ -607,7 +855,7 @@ func (m *zmon) runScenario(sc *zscenario) {
 					zscWitness{Part: "C", Scenario: sc, Step: si, Token: t})
 				return
 			}
-			want := w.want(m, t, false)
+			want := w.want(m, t, "")
 			decisions += len(got)
 			if zvDiff(want, got) >= 0 {
 				w.judge(m, "C", si, t, want, got, hist)
@@ -652,7 +900,13 @@ func zvPartC(m *zmon, rng *core.Rand, pools map[string][]*zpol) {
 			defer wg.Done()
 			shared := 0
 			for i := wk; i < n && m.run.Violations() <= 30; i += workers {
-				sc := zvRandScenario(core.NewRand(seeds[i]), pools, all, true)
+				var sc *zscenario
+				if i%3 == 2 {
+					sc = zvDupScenario(core.NewRand(seeds[i]), pools, all)
+				} else {
+					sc = zvRandScenario(core.NewRand(seeds[i]), pools, all, true)
+				}
+				sc.dupCounts(m)
 				m.runScenario(sc)
 				m.run.Eval()
 				if sc.sharing() {
@@ -801,7 +1055,13 @@ func zvRaceParts(m *zmon, rng *core.Rand, pools map[string][]*zpol) {
 	rc := rng.Fork(0xE)
 	for round := 0; round < rounds && m.run.Violations() <= 30; round++ {
 		r := rc.Fork(uint64(round))
-		sc := zvRandScenario(r, pools, all, false)
+		var sc *zscenario
+		if round%3 == 2 {
+			sc = zvDupScenario(r, pools, all)
+			m.count("race_rounds_with_duplicate_synthetic_policy", 1)
+		} else {
+			sc = zvRandScenario(r, pools, all, false)
+		}
 		w, err := zvBuildWorld(sc)
 		if err != nil {
 			m.run.Inconclusive("scenario could not be stored: " + err.Error())
@@ -844,7 +1104,7 @@ func zvRaceParts(m *zmon, rng *core.Rand, pools map[string][]*zpol) {
 					zscWitness{Part: "race-resolve", Scenario: sc, Token: t})
 				break
 			}
-			want := w.want(m, t, false)
+			want := w.want(m, t, "")
 			m.count("decisions_compared", len(want))
 			if zvDiff(want, got[i]) >= 0 {
 				w.judge(m, "race-resolve", 0, t, want, got[i], raceHist)
